@@ -45,7 +45,8 @@ def run(pid, tier, seed, replay_path=None):
 
     if replay_path:
         rp = json.load(open(replay_path))
-        names, known, obs = rl.replay_render(hv, d, rp["case"], rp.get("seed", 1), ARGS(TIERS["quick"]), "C05_")
+        names, known, obs = rl.replay_render(hv, d, rp["case"], rp.get("seed", 1),
+                                             ["-n", "30", "-m", "8", "-disk", "-engine", "-crds", "-children", "2"], "C05_")
         bad = sorted(set(names) | {n for n, k in known if k not in listed})
         for n, k in sorted(set(known)):
             if k in listed:
@@ -117,10 +118,12 @@ def run(pid, tier, seed, replay_path=None):
     exp_mismatch = 0
     for o in obs:
         e = exp[o["id"]]["exp"]
-        if o["case"]["fam"] == "schema" or e["err"] != o["obs"]["err"] or e["err"] != "none":
+        if o["case"]["fam"] == "schema" or o["obs"]["err"] != "none":
             continue
         man = [{"p": x["p"], "i": x["i"], "v": x["v"]} for x in o["obs"]["manifest"]]
-        want = [x if x["v"] != "*" else dict(x, v=y["v"]) for x, y in zip(e["manifest"], man)] if len(e["manifest"]) == len(man) else e["manifest"]
+        want = e["manifest"]
+        if len(want) == len(man):
+            want = [x if x["v"] != "*" else dict(x, v=y["v"]) for x, y in zip(want, man)]
         if man != want:
             exp_mismatch += 1
     mon_manifest = sum(1 for i, n in viol if n == "C05_Eq_Manifest" and i < len(obs))
@@ -145,25 +148,25 @@ def run(pid, tier, seed, replay_path=None):
         return (len(c["files"]) + len(c["parts"]) + len(c["notes"]) + len(c["subs"]) + len(c["crds"]), i)
     groups = {}
     for idx, name, kf in cand:
-        key = (name, kf) if kf else (name, obs_at(idx)["id"])
-        g = groups.get(key)
-        if g is None:
-            groups[key] = [idx, name, kf, 1]
-        else:
-            g[3] += 1
-            if size(idx) < size(g[0]):
-                g[0] = idx
+        groups.setdefault((name, kf), []).append(idx)
     reported, unrepro = [], []
-    for (idx, name, kf, cnt) in sorted(groups.values(), key=lambda g: (g[1], size(g[0])))[:25]:
-        o = obs_at(idx)
-        path = os.path.join(vdir, "%s_%s.json" % (name, o["id"]))
-        json.dump({"family": "render", "seed": seed, "case": rl.case_line_of(o)}, open(path, "w"))
-        names, kn, _ = rl.replay_render(hv, d, rl.case_line_of(o), seed, ARGS(TIERS["quick"]), "C05_")
-        if name in names or name in [n for n, _ in kn]:
-            reported.append((name, path, kf, cnt, rl.describe_case(o)))
-        else:
-            unrepro.append((name, path))
-            log("UNREPRODUCED %s %s: seen once, not on replay" % (name, path))
+    replay_args = ["-n", "30", "-m", "8", "-disk", "-engine", "-crds", "-children", "2"]
+    for (name, kf), idxs in sorted(groups.items()):
+        for idx in sorted(idxs, key=size)[:3]:
+            o = obs_at(idx)
+            path = os.path.join(vdir, "%s_%s.json" % (name, o["id"]))
+            json.dump({"family": "render", "seed": seed, "case": rl.case_line_of(o)}, open(path, "w"))
+            ok = False
+            for attempt in range(2):
+                names, kn, _ = rl.replay_render(hv, d, rl.case_line_of(o), seed + attempt, replay_args, "C05_")
+                if name in names or name in [n for n, _ in kn]:
+                    ok = True
+                    break
+            if ok:
+                reported.append((name, path, kf, len(idxs), rl.describe_case(o)))
+            else:
+                unrepro.append((name, path))
+                log("UNREPRODUCED %s %s: seen once, not on replay" % (name, path))
     for kf, lst in sorted(found.items()):
         print("KNOWN-FINDING: property=%s %s (%d observations, checks %s)" % (pid, kf, len(lst), ",".join(sorted({n for n, _ in lst}))))
     for name, path, kf, cnt, desc in reported:
@@ -208,5 +211,5 @@ def run(pid, tier, seed, replay_path=None):
     if reported:
         return 1
     if unrepro:
-        raise Inconclusive("%d failing observations did not reproduce on replay" % len(unrepro))
+        raise Inconclusive("%d failing observations did not reproduce on replay (none did)" % len(unrepro))
     return 0
